@@ -3,6 +3,7 @@ package w02
 import (
 	"fmt"
 	"regexp"
+	"sort"
 	"strings"
 
 	"github.com/openconfig/goyang/pkg/yang"
@@ -114,7 +115,59 @@ func Semantic(j *job.Job, s *job.Sink) {
 		for _, m := range regexp.MustCompile(`import \S+ \{ prefix (\S+); \}`).FindAllStringSubmatch(t, -1) {
 			impPfx = append(impPfx, m[1])
 		}
-		switch r.Intn(13) {
+		switch r.Intn(14) {
+		case 13:
+			// a bad type inside a deviate statement of a deviating module added to the set
+			res := &schema.Resolver{Mods: g.Mods}
+			res.Resolve()
+			var leaves []*schema.X
+			var walk func(x *schema.X)
+			walk = func(x *schema.X) {
+				if x.Kind == "leaf" && x.Parent != nil {
+					leaves = append(leaves, x)
+				}
+				var ks []string
+				for k := range x.Children {
+					ks = append(ks, k)
+				}
+				sort.Strings(ks)
+				for _, k := range ks {
+					walk(x.Children[k])
+				}
+			}
+			var rms []*schema.Mod
+			for m := range res.Roots {
+				rms = append(rms, m)
+			}
+			sort.Slice(rms, func(a, b int) bool { return rms[a].Name < rms[b].Name })
+			if len(res.Errs) == 0 && len(rms) > 0 {
+				rm := rms[r.Intn(len(rms))]
+				walk(res.Roots[rm])
+				if len(leaves) > 0 {
+					x := leaves[r.Intn(len(leaves))]
+					path := ""
+					for n := x; n.Parent != nil; n = n.Parent {
+						path = "/t:" + n.Name + path
+					}
+					bt := []string{"nosuchtype", "t:nosuchtype", "uint8 {\n        range \"1..300\";\n      }", "string {\n        length \"5..2\";\n      }"}[r.Intn(4)]
+					kw := []string{"type", "type", "range", "length"}[map[bool]int{true: 0, false: 2}[!strings.Contains(bt, "range")]]
+					if strings.Contains(bt, "length") {
+						kw = "length"
+					}
+					if !strings.Contains(bt, "{") {
+						kw = "type"
+						bt += ";"
+					}
+					fn = "zzdev.yang"
+					t = fmt.Sprintf("module zzdev {\n  namespace \"urn:zzdev\";\n  prefix zzdev;\n  import %s { prefix t; }\n  deviation %s {\n    deviate replace {\n      type %s\n    }\n  }\n}\n", rm.Name, path, bt)
+					names = append(names, fn)
+					desig = strings.Index(t, "      type ") + 6
+					if kw != "type" {
+						desig = strings.Index(t, kw+" \"")
+					}
+					fault, want = "bad type in a deviate statement", []string{kw}
+				}
+			}
 		case 12:
 			// a statement that only the other kind of module may have: unknown here, like
 			// any made-up keyword, and to be reported where it stands
@@ -218,10 +271,22 @@ func Semantic(j *job.Job, s *job.Sink) {
 					s.Violation(c, j.CaseID(c), "C16.semantic", "position-not-a-statement-start", fmt.Sprintf("%s in %q", m[0], e.Error()), cs, map[string]any{"fault": fault})
 					continue
 				}
+				named := false
 				for _, w := range want {
+					if kw == w {
+						named = true
+					}
 					if kw == w && m[1] == fn && (desigPos == "" || desigPos == m[2]+":"+m[3]) {
 						hit = true
 					}
+				}
+				if !named && len(errs) == 1 {
+					// the one fault of the set is a statement of the kinds in want and this is
+					// the one error it caused (a fault that makes a module unloadable causes
+					// further errors where the module is used; those are left alone): a position
+					// in it that names a statement of another kind (the enclosing one, say) is
+					// not the position of what is wrong
+					s.Violation(c, j.CaseID(c), "C16.semantic", "position-names-another-statement", fmt.Sprintf("%s: the error %q names the %s statement at %s", fault, e.Error(), kw, m[0]), cs, map[string]any{"fault": fault})
 				}
 			}
 		}
